@@ -20,7 +20,7 @@ func (c *VCtx) cancelOf(f *Term) *Term {
 
 // cancelCtx: the context becomes cancelled no later than the next instant.
 func (c *VCtx) cancelCtx(st *State, ctx *Term, guard *Term) {
-	n := c.tick(st)
+	n := c.tick(st, c.ctxDone(ctx), true)
 	ca := c.closedAt(c.ctxDone(ctx))
 	c.fact(Implies(And(st.pc, guard), And(Ge(ca, IntLit(0)), Le(ca, n))))
 }
